@@ -64,12 +64,31 @@ func (x *Exec) needFam(name string) *famEnv {
 }
 
 // atCreation evaluates an expression in the compile function's frame, in the state at closure creation.
-func (fe *famEnv) atCreation(e spec.Expr) TV {
+func (fe *famEnv) atCreation(e spec.Expr) (tv TV) {
 	par := fe.parent
 	sc, si := par.cur, par.curIdx
-	par.cur, par.curIdx = nil, 0
 	defer func() { par.cur, par.curIdx = sc, si }()
-	return par.eval(e, fe.create, fe.create)
+	// parameters of the compile function first; its local variables (as they are at the creation
+	// point) when the expression names one
+	retry := false
+	func() {
+		defer func() {
+			if r := recover(); r != nil {
+				if se, ok := r.(SpecError); ok && strings.Contains(se.Error(), "unknown name") && sc != nil {
+					retry = true
+					return
+				}
+				panic(r)
+			}
+		}()
+		par.cur, par.curIdx = nil, 0
+		tv = par.eval(e, fe.create, fe.create)
+	}()
+	if retry {
+		par.cur, par.curIdx = sc, si
+		tv = par.eval(e, fe.create, fe.create)
+	}
+	return tv
 }
 
 // exprKind: the pinned kind of e.Type for a compile-time *Expr / *Var / *Place value.
@@ -185,7 +204,12 @@ func ghostUp(f *Frame, st, old *State, idx []spec.Expr, args []spec.Expr) TV {
 	if !ok {
 		specErr("up(env, n): env must be a pointer to a frame")
 	}
-	return TV{x.upTerm(st, e.V.(*smt.Term), n, pt.Elem()), e.T}
+	t := x.upTerm(st, e.V.(*smt.Term), n, pt.Elem())
+	if x.fam != nil && x.fam.inSpec && !n.IsConst() && x.fam.specFrame == nil {
+		// the frame a closure reaches by walking the chain in a loop (frame lemma, family.go)
+		x.fam.specFrame = t
+	}
+	return TV{t, e.T}
 }
 
 // goeq(a, b): Go's == on basic values (IEEE equality on floats: NaN != NaN, -0 == +0).
